@@ -43,4 +43,7 @@ package barriers
 //@ method (*barrierErr).SafeDetails
 //@   props C03 C12 C07
 //@   ensures[C03] safeSeq(result)
+//@   ensures[C12] len(result) == len(errbase.foldSD(self.maskedErr, nil)) + 1
+//@   ensures[C12] forall i int :: 0 <= i && i < len(errbase.foldSD(self.maskedErr, nil)) ==> result[i] == errbase.foldSD(self.maskedErr, nil)[i]
 //@   loop 1: invariant[C03] safeSeq(details)
+//@           invariant[C12] errbase.foldSD(err, details) == errbase.foldSD(self.maskedErr, nil)
